@@ -18,6 +18,11 @@ CHECKS = {
             "Every history of <=3 (quick) / <=4 (thorough) ops over a 16-op alphabet (incl. refused checkpoints, drop caches, restart) is executed; after every step the previous log bytes must be a prefix of the new ones and the suffix whole newline-terminated JSON frames with the envelope keys, every other changed file must be a cache / snapshot / workspace .rip file; in every reached state ~150 read-only, dry-run, nothing-plannable, stride-0 and unknown/hostile-thread-id calls (store API and GET routes incl. the three SSE handlers and /config/doctor) must add zero bytes, again with caches dropped and after restart.",
             "Depth bound; the SSE bodies are not polled (attach only); frames logged by failing operations are not judged; task/session write paths are covered by C01/C07.",
             "DESIGN.md §3 C02"),
+    "C03": ("H-histories", "exploration",
+            "bounded exhaustive enumeration of frame shapes (38 variants x field domains) through the real serde/EventLog/snapshot paths, and of histories with subscribers attached first (live == log == sidecar == store replay == snapshot)",
+            "Part a: for each of the 38 frame types the product of per-field value domains (full product when <= 20 000 shapes, otherwise every field against three backgrounds plus all field pairs at extremes) is written and read back through serde, the real EventLog and a snapshot; no field may be lost or altered and the stream assignment must be stable. Part b: every history of <=3 (quick) / <=4 (thorough) ops over 14 ops (incl. tool and checkpoint envelope runs, drop caches, restart) runs with a continuity subscriber and per-run session subscribers attached first; per stream the frames received live, the log, the store replay, the sidecar file content and the session snapshot must be the same JSON frames in order.",
+            "Value domains are representatives; absent/null/empty encodings of optional fields are treated as equal; the raw sidecar file may be a contiguous partial run before its lazy rebuild (completeness judged through replay_events); task streams are covered by C17/C06.",
+            "DESIGN.md §3 C03"),
     "C04": ("H-histories", "fault_enumeration",
             "bounded exhaustive enumeration of histories x single cache faults x read capabilities; differential oracle (fault applied vs cache directory removed) on fresh authorities; watchdog for termination",
             "For every history of <=3 (quick) / <=4 (thorough) ops plus window-crossing threads (600 / 10 001 dense frames, 300 KiB and 3x3 MiB messages, 18 messages) every single fault {delete, truncate to 0 / 1 byte / mid-record / last line boundary / half, equal-length garbage, roll-back to the content after each earlier op} is applied to every cache file of the thread; a fresh authority must then answer replay, cut points, compaction status, cursor status, selection status and the compiled context for every message anchor exactly like a fresh authority on the same store without caches, again after one more append, and validated replay must still hold; every step runs under a 25 s watchdog.",
